@@ -87,8 +87,19 @@ package gnosis
 //@ func (*SequencerSyncer).filterEvents
 //@   requires forall i :: 0 <= i && i < len(events) ==> (events[i] != nil && events[i].GasLimit != nil)
 //@   ensures forall i :: 0 <= i && i < len(ret0) ==> (ret0[i] != nil && ret0[i].GasLimit != nil)
+//@   // only admissible events are kept: eon and gas limit fit the signed 64-bit database columns (what is stored
+//@   // is GasLimit.Int64(); A-db-2 of C19 - stored gas limits are non-negative - rests on this filter)
+//@   ensures forall i :: 0 <= i && i < len(ret0) ==> (ret0[i].Eon <= 9223372036854775807 && 0 - 9223372036854775808 <= bigval(ret0[i].GasLimit) && bigval(ret0[i].GasLimit) <= 9223372036854775807)
+//@   ensures len(ret0) <= len(events)
 //@   invariant fresh(filteredEvents) || len(filteredEvents) == 0
-//@   invariant forall j :: 0 <= j && j < len(filteredEvents) ==> (filteredEvents[j] != nil && filteredEvents[j].GasLimit != nil)
+//@   invariant len(filteredEvents) <= rangeindex + 1
+//@   invariant forall j :: 0 <= j && j < len(filteredEvents) ==> (filteredEvents[j] != nil && filteredEvents[j].GasLimit != nil && filteredEvents[j].Eon <= 9223372036854775807 && 0 - 9223372036854775808 <= bigval(filteredEvents[j].GasLimit) && bigval(filteredEvents[j].GasLimit) <= 9223372036854775807)
+//@ func (*SequencerSyncer).resetSyncStatus
+//@   requires s != nil && s.DBPool != nil
+//@   ensures evcount("setTxSynced") <= old(evcount("setTxSynced")) + 1
+//@   ensures evcount("setTxSynced") == old(evcount("setTxSynced")) + 1 ==> (evcount("delTxSub") == old(evcount("delTxSub")) + 1 && evarg("delTxSub", 0, old(evcount("delTxSub"))) == int64(evarg("setTxSynced", 0, old(evcount("setTxSynced"))) + 1))
+//@   ensures numReorgedBlocks == 0 ==> (ret0 == nil && evcount("setTxSynced") == old(evcount("setTxSynced")) && evcount("delTxSub") == old(evcount("delTxSub")))
+//@   opt frame = off
 //@ func (*SequencerSyncer).syncRange
 //@   requires s != nil && s.DBPool != nil && s.ExecutionClient != nil && s.Contract != nil && s.SecondsPerSlot > 0
 //@   ensures ret0 == nil ==> evcount("commit") == old(evcount("commit")) + 1
